@@ -102,7 +102,7 @@ ReqOps ==
   { [op |-> "req", ks |-> k, t |-> t] : k \in {Ka, Kb, Kc, Kz}, t \in {"i32", "str"} }
   \cup { [op |-> "visit"] }
   \* the same requests through the `const char*` (string literal) overloads of the key API, and for the prefix-related key
-  \cup (IF Arch \in {"json", "xml"} THEN { [op |-> "req", ks |-> k, t |-> "i32", kc |-> TRUE] : k \in {Ka, Kaa, Kz} } ELSE {})
+  \cup { [op |-> "req", ks |-> k, t |-> "i32", kc |-> TRUE] : k \in {Ka, Kaa} }
   \cup { [op |-> "req", ks |-> Kaa, t |-> "i32"] }
   \cup { [op |-> "obj", ks |-> Ka, ops |-> o] : o \in { <<>>, <<[op |-> "req", ks |-> <<109>>, t |-> "str"]>>,
                                                        <<[op |-> "req", ks |-> <<109>>, t |-> "str"], [op |-> "req", ks |-> <<110>>, t |-> "i32"]>> } }
@@ -193,7 +193,7 @@ NextSkip == /\ Cardinality(aux.done) < MaxOps
 -----------------------------------------------------------------------------
 (* Mode "typed" (C07): every corpus value in every legal width into every target, whole and truncated *)
 Targets == {"bool", "i8", "u8", "i16", "u16", "i32", "u32", "i64", "u64", "f32", "f64", "str", "vec_i32", "objscope"} \cup (IF Arch = "xml" THEN {} ELSE {"null", "vec_vec_i32"})
-           \cup (IF Arch = "msgpack" THEN {"tp_ns", "vec_u8"} ELSE {})
+           \cup (IF Arch = "msgpack" THEN {"tp_ns", "vec_u8", "map_i32_str"} ELSE {})
 
 NumTargets == {"bool", "i8", "u8", "i16", "u16", "i32", "u32", "i64", "u64", "f32", "f64"}
 \* pseudo target "objscope": the value is opened as a nested object (one member requested), then a sibling is requested
@@ -230,6 +230,7 @@ NumCorpus == { IntSmall(n) : n \in (NumBase - NumNeg)..(NumBase + NumPos) }
              \cup (IF Arch = "msgpack" THEN FloatCorpus ELSE IF Arch = "xml" THEN XFloats ELSE JFloats)
 TypedCorpus == (IF Arch = "msgpack" THEN ScalarCorpus ELSE IF Arch = "xml" THEN XScalars \cup {<<"nil">>} ELSE JScalars) \cup { <<"arr", <<U(1), U(200), U(-3)>>>>, <<"arr", <<>>>>, <<"arr", <<U(1), S(<<122>>)>>>>, <<"map", <<<<S(Ka), U(1)>>>>>>,
                      <<"arr", <<<<"arr", <<U(1), U(2)>>>>, <<"nil">>, <<"arr", <<U(3)>>>>>>>> }         \* null in place of a nested array
+               \cup (IF Arch = "msgpack" THEN { <<"map", <<<<U(5), S(<<120>>)>>, <<I40, S(<<121>>)>>, <<U(-6), S(<<122>>)>>>>>> } ELSE {})   \* a key the key type cannot hold
 
 InitTyped == /\ \E v \in (IF Mode = "numeric" THEN NumCorpus ELSE TypedCorpus),
                    T \in (IF TypedTargets # {} THEN TypedTargets ELSE IF Mode = "numeric" THEN NumTargets ELSE Targets) : \E r \in (IF Mode = "numeric" /\ NumLeafOnly THEN { [k |-> "leaf", t |-> T] } ELSE TypedRoots(T)) : ("at" \in DOMAIN r => v[1] \notin {"arr", "map", "nil"}) /\ doc = Wrap(v, r) /\ root = r
